@@ -29,6 +29,9 @@
     exceptions, so they cannot influence `State`; a raising callback only takes the reply away from the
     caller (the result is logged, cached and was handed to the callback).
 
+  * rendering of agent exceptions and payloads (section "payloads and exceptions that cannot be rendered"): it
+    cannot fail since the `fix:` commits (`_describe`); the pre-fix shape is `runP false` / `deliver … true`.
+
   Not modelled: console output, processing time, payload/confidence/metadata of the token, callbacks that
   re-enter the loop or mutate the result they are given, thread interleavings finer than agent calls.
 -/
@@ -187,8 +190,10 @@ structure Prompt where
 /-- What an agent does when consulted.
     `exc`  : raises an `Exception` that can be rendered as text (the handler of `run` formats it into the
              block reason of the ERROR reply);
-    `excU` : raises an `Exception` whose `__str__` raises ("unprintable"): the handler records the failure
-             FIRST and then fails while formatting `f"Agent error: {e}"` — `run` raises, nothing comes back;
+    `excU` : raises an `Exception` whose `__str__` raises ("unprintable"): the handler records the failure and
+             renders the exception through `_describe` (placeholder `<unprintable Class>`) — the same blocked ERROR
+             reply as for `exc` (since the `fix:` commit; before it the handler failed while formatting
+             `f"Agent error: {e}"` and `run` raised — that shape is `runP false`, section "payloads" below);
     `excB` : raises a `BaseException` that is not an `Exception` (KeyboardInterrupt, SystemExit, …): the
              `except Exception` handler does not see it — `run` raises, no failure is recorded. -/
 inductive Resp where
@@ -321,19 +326,20 @@ def gateResult (H : Hashes) (g : Gate) (p : Prompt) (z y : Cls) : Result :=
   ⟨o.success, o.action, o.blocked, if o.token then some ⟨H.sha p.id, .assessor⟩ else none, false⟩
 
 /-- `run` from "Create signal" on: both agents, gate, breaker update, caching.
-    The `except Exception` handler calls `_record_failure()` before anything else, so an exception that cannot
-    even be rendered (`excU`) is counted although the handler itself then fails (no reply). -/
+    The `except Exception` handler calls `_record_failure()` before anything else and renders the exception with
+    `_describe`, which cannot fail: an exception that cannot be rendered (`excU`) is counted and answered with the
+    blocked ERROR reply like any other. -/
 def consult (cfg : Cfg) (H : Hashes) (s : State) (p : Prompt) (zr yr : Resp) : State × Out :=
   let s1 := callExecutor cfg s
   match zr with
   | .exc => ({ s1 with br := recordFailure cfg s1.now s1.br }, ⟨.agentExc, some errorResult⟩)
-  | .excU => ({ s1 with br := recordFailure cfg s1.now s1.br }, ⟨.agentExc, none⟩)
+  | .excU => ({ s1 with br := recordFailure cfg s1.now s1.br }, ⟨.agentExc, some errorResult⟩)
   | .excB => (s1, ⟨.aborted, none⟩)
   | .ret z =>
     let s2 := callAssessor cfg s1
     match yr with
     | .exc => ({ s2 with br := recordFailure cfg s2.now s2.br }, ⟨.agentExc, some errorResult⟩)
-    | .excU => ({ s2 with br := recordFailure cfg s2.now s2.br }, ⟨.agentExc, none⟩)
+    | .excU => ({ s2 with br := recordFailure cfg s2.now s2.br }, ⟨.agentExc, some errorResult⟩)
     | .excB => (s2, ⟨.aborted, none⟩)
     | .ret y =>
       if p.enc then
@@ -434,9 +440,10 @@ def lookup (cfg : Cfg) (H : Hashes) (s : State) (p : Prompt) : State × Option O
 def agentRaised (cfg : Cfg) (s : State) : State × Out :=
   ({ s with br := recordFailure cfg s.now s.br }, ⟨.agentExc, some errorResult⟩)
 
-/-- the `except` handler when the exception cannot be rendered: failure recorded first, then the handler raises -/
+/-- the `except` handler when the exception cannot be rendered: failure recorded, the block reason gets the
+    placeholder of `_describe` — the same ERROR reply -/
 def agentRaisedU (cfg : Cfg) (s : State) : State × Out :=
-  ({ s with br := recordFailure cfg s.now s.br }, ⟨.agentExc, none⟩)
+  ({ s with br := recordFailure cfg s.now s.br }, ⟨.agentExc, some errorResult⟩)
 
 /-- a `BaseException` of an agent passes through `run` -/
 def agentAborted (s : State) : State × Out := (s, ⟨.aborted, none⟩)
@@ -533,14 +540,23 @@ def execR (H : Hashes) : Cfg → State → List ROp → State × List RObs
 
 def idHashes : Hashes := ⟨id, id⟩
 
-/-! ### payloads that cannot be rendered
+/-! ### payloads and exceptions that cannot be rendered
 
-  `ActionProtein.payload` is `Any`.  `_apply_gate_logic` renders payloads into strings: `str(y_out.payload)` for the
-  approval token — built BEFORE the gate branches whenever the assessor's verdict is PERMIT, under every gate logic —
-  and an f-string of the payload of the agent that stops the request (`Risk Assessor: …`, `Executor failure: …`,
-  `Executor skipped: …`).  When such a payload's `__str__` raises, `_apply_gate_logic` raises — outside the `try` of
-  `run`: after both agents were consulted and charged, before the breaker update, the cache store, the log and the
-  callbacks.  `runP` is `run` for agents whose answers carry a flag "payload can be rendered". -/
+  `ActionProtein.payload` is `Any`, and what an agent raises is any `Exception`.  `run` turns both into text: the
+  handler of the agent calls formats the exception into the block reason of the ERROR reply; `_apply_gate_logic`
+  renders payloads — `str(y_out.payload)` for the approval token, built BEFORE the gate branches whenever the
+  assessor's verdict is PERMIT, under every gate logic, and the payload of the agent that stops the request
+  (`Risk Assessor: …`, `Executor failure: …`, `Executor skipped: …`); `_print_result` (console on) prints the
+  executor's payload of a SUCCESS as the last statement of `run`.
+
+  Since the two `fix:` commits every one of these goes through `_describe`, which falls back to
+  `<unprintable Class>` when `__str__` raises: rendering cannot fail, and `run` behaves on a response whatever its
+  payload / exception text is like — `runP true = run` (definitionally).
+
+  The shape BEFORE the fixes stays expressible as `runP false` (the witnesses of the two repaired findings are
+  stated about it): a payload the gate renders whose `__str__` raises made `_apply_gate_logic` raise — outside the
+  `try` of `run`: after both agents were consulted and charged, before the breaker update, the cache store, the log
+  and the callbacks; an unrenderable exception made the handler raise after it had recorded the failure. -/
 
 /-- an agent's response together with whether its payload can be rendered (`str()` does not raise) -/
 structure RespP where
@@ -564,23 +580,37 @@ def renders (g : Gate) (z y : Cls) : Bool × Bool :=
     else (false, false)
   | .majority => (false, approval)
 
-/-- `_apply_gate_logic` raises while rendering a payload -/
+/-- a payload the gate renders on these responses cannot be rendered (pre-fix: `_apply_gate_logic` raises) -/
 def renderFails (g : Gate) (zr yr : RespP) : Bool :=
   match zr.resp, yr.resp with
   | .ret z, .ret y => ((renders g z y).1 && !zr.payloadOk) || ((renders g z y).2 && !yr.payloadOk)
   | _, _ => false
 
-/-- `CoherentFeedForwardLoop.run` for agents whose payloads may be unrenderable: when the request gets as far as
-    the gate (`Kind.gated`) and rendering fails there, what remains of `run` is the look-up phase and the two agent
-    calls — no breaker update, no cache store, no reply (`Kind.raised`). -/
-def runP (cfg : Cfg) (H : Hashes) (s : State) (p : Prompt) (zr yr : RespP) : State × Out :=
+/-- the agent whose exception reaches the handler of `run` raised one that cannot be rendered (pre-fix: the handler
+    itself raises after recording the failure) -/
+def handlerFails (zr yr : Resp) : Bool :=
+  match zr, yr with
+  | .excU, _ => true
+  | .ret _, .excU => true
+  | _, _ => false
+
+/-- `CoherentFeedForwardLoop.run` for agents whose payloads / exceptions may be unrenderable.
+    `safe = true` (the code as it is: every rendering goes through `_describe`): `run`, whatever the payloads.
+    `safe = false` (the code before the fixes): when the request gets as far as the gate (`Kind.gated`) and rendering
+    fails there, what remains of `run` is the look-up phase and the two agent calls — no breaker update, no cache
+    store, no reply (`Kind.raised`); when the handler of the agent calls gets an unrenderable exception the failure is
+    recorded and nothing comes back. -/
+def runP (safe : Bool) (cfg : Cfg) (H : Hashes) (s : State) (p : Prompt) (zr yr : RespP) : State × Out :=
   let r := run cfg H s p zr.resp yr.resp
-  match r.2.kind with
-  | .gated _ =>
-    if renderFails cfg.gate zr yr then
-      (callAssessor cfg (callExecutor cfg (lookup cfg H s p).1), ⟨.raised, none⟩)
-    else r
-  | _ => r
+  if safe then r
+  else
+    match r.2.kind with
+    | .gated _ =>
+      if renderFails cfg.gate zr yr then
+        (callAssessor cfg (callExecutor cfg (lookup cfg H s p).1), ⟨.raised, none⟩)
+      else r
+    | .agentExc => if handlerFails zr.resp yr.resp then (r.1, ⟨.agentExc, none⟩) else r
+    | _ => r
 
 /-! ### callbacks and statistics — the tail of `run`
 
@@ -616,7 +646,7 @@ inductive Delivery where
   | reply (r : Result)
   | hookRaised (r : Result)   -- the result was produced, logged, cached and handed to the callback — which raised
   | printRaised (r : Result)  -- … and the callbacks returned; the console output (`silent=False`) failed to render
-                              --   the executor's payload of a SUCCESS
+                              --   the executor's payload of a SUCCESS (pre-fix shape only: `deliver … true`)
   | nothing                   -- `run` raised before a result existed
   deriving Repr, DecidableEq
 
@@ -630,9 +660,10 @@ def Delivery.seen : Delivery → Option Result
 
 def logOne (t : Tally) : Tally := { t with requests := t.requests + 1, logged := min logCap (t.logged + 1) }
 
-/-- the tail of `run` for a request handled as `o`.  `printFails`: the console is on (`silent=False`) and the
-    executor's payload cannot be rendered — `_print_result` prints that payload for a SUCCESS, as the very last
-    statement of `run`. -/
+/-- the tail of `run` for a request handled as `o`.  `printFails` (pre-fix shape only; `false` for the code as it
+    is, where `_print_result` renders through `_describe`): the console is on (`silent=False`) and the executor's
+    payload cannot be rendered — `_print_result` prints that payload for a SUCCESS, as the very last statement of
+    `run`. -/
 def deliver (hk : Hooks) (t : Tally) (o : Out) (printFails : Bool := false) : Tally × Delivery :=
   match o.kind, o.result with
   | .admin, _ => (t, .nothing)
